@@ -214,6 +214,33 @@ func Run(r *mc.Run) {
 		}
 	}
 	names = append(names, "a-b-c-d", "gnu-linux-amd64-x", "", "-", "a-", "-a", "a--b", "--", "any-", "-any", "all-all", "all-amd64", "gnu-all-all", "é", "i386", "armhf", "hurd-i386", "gnueabihf-linux-arm")
+	// every architecture name also inside a dependency: as a bracket-list entry (alone, negated, first and last of
+	// several) and as a qualifier - the list parser and the qualifier parser have their own paths to the name parser
+	r.Scenario("arch-names-inside-fields", map[string]interface{}{"names": len(names), "templates": []string{"a [N]", "a [!N]", "a [amd64 N]", "a [N i386]", "a [!N !i386]", "a:N", "a:N [N] | b [!N]"}}, 8, func(sh int, st *mc.Stats) bool {
+		for i := sh; i < len(names); i += 8 {
+			n := names[i]
+			for _, t := range []string{"a [" + n + "]", "a [!" + n + "]", "a [amd64 " + n + "]", "a [" + n + " i386]", "a [!" + n + " !i386]", "a:" + n, "a:" + n + " [" + n + "] | b [!" + n + "]"} {
+				st.Evals++
+				vs, acc := checkFix("arch-names-inside-fields", In{t})
+				switch {
+				case !acc && len(vs) == 0:
+					st.Class("rejected")
+				case len(vs) == 0:
+					st.Class("accepted-fixpoint")
+					st.Nontrivial++
+					st.Traces++
+				default:
+					st.Class("accepted-broken")
+					st.Nontrivial++
+					st.Traces++
+				}
+				for _, v := range vs {
+					st.Violate(v)
+				}
+			}
+		}
+		return true
+	})
 	r.Scenario("arch-names-roundtrip", map[string]interface{}{"components": comps, "names": len(names)}, 8, func(sh int, st *mc.Stats) bool {
 		for i := sh; i < len(names); i += 8 {
 			st.Evals++
